@@ -8,7 +8,9 @@ Vocabulary (defined in `Netpol.Proofs.ConnSet`): `inRange p` is `1 ≤ p ≤ 655
 `PortSet.WF` = canonical interval list inside the port range; `ConnSet.den c pr p` = port `p` of
 protocol `pr` is allowed numerically; `ConnSet.names c pr` = named ports held for `pr`;
 `ConnSet.WF` = the AllowAll form has no entries, entries are well-formed and not empty;
-`ConnSet.Canonical` = `WF` and the full set is not held as three full entries. -/
+`ConnSet.Canonical` = `WF` and the full set is not held as three entries with the full port range
+and no excluded named port (`isAllConnectionsWithoutAllowAll` is false). Since the repair of
+`PortSet.IsAll` the named ports held by such entries do not matter: the full range covers them. -/
 namespace Netpol.Properties.C11
 open Netpol
 
@@ -28,6 +30,10 @@ def exB : ConnSet :=
 /-- `TCP http` (a named port only) -/
 def exN : ConnSet :=
   (ConnSet.mk' false).addConnection .TCP ((PortSet.mk' false).addPort (.name "http"))
+
+/-- `UDP http` (a named port only) -/
+def exH : ConnSet :=
+  (ConnSet.mk' false).addConnection .UDP ((PortSet.mk' false).addPort (.name "http"))
 
 /-- all three protocols with the full range, added one by one -/
 def exFull : ConnSet :=
@@ -159,13 +165,14 @@ theorem containedIn_iff_of_not_allowAll (hc : c.WF) (hd : d.WF) (hn : ∀ pr, c.
   ⟨containedIn_sound hc hd,
    containedIn_complete hc hd hn (fun h => by rw [ha] at h; exact absurd h (by decide))⟩
 
-/-- `d` has to be canonical and free of named / excluded ports: otherwise `d` can cover the whole
-range without being recognised as All Connections, and `AllowAll.ContainedIn(d)` is false -/
+/-- `d` has to be canonical and free of excluded named ports: otherwise `d` can cover the whole
+range without being recognised as All Connections, and `AllowAll.ContainedIn(d)` is false (see the
+examples below). `d` may hold named ports (hypothesis dropped after the repair of `IsAll`). -/
 theorem containedIn_iff (hc : c.WF) (hd : d.Canonical) (hn : ∀ pr, c.names pr = [])
-    (hdn : ∀ pr, d.names pr = []) (hde : ∀ pr ps, d.get pr = some ps → ps.excluded = []) :
+    (hde : ∀ pr ps, d.get pr = some ps → ps.excluded = []) :
     c.containedIn d = true ↔ ∀ pr x, c.den pr x → d.den pr x :=
   ⟨containedIn_sound hc hd.1,
-   containedIn_complete hc hd.1 hn (fun _ => (ConnSet.allowAll_iff_full hd hdn hde).mpr)⟩
+   containedIn_complete hc hd.1 hn (fun _ => (ConnSet.allowAll_iff_full' hd hde).mpr)⟩
 
 example : (exA.inter exB).containedIn exA = true ∧ exA.containedIn exB = false ∧
     exA.containedIn (ConnSet.mk' true) = true ∧ (ConnSet.mk' true).containedIn exA = false := by
@@ -176,6 +183,12 @@ All Connections is not `ContainedIn` them -/
 example : (ConnSet.mk' true).containedIn ConnSet.fullEntries = false ∧
     ∀ pr x, (ConnSet.mk' true).den pr x → ConnSet.fullEntries.den pr x :=
   ⟨by decide, fun pr x h => (ConnSet.den_fullEntries pr x).mpr ((ConnSet.den_mk_all pr x).mp h)⟩
+
+/-- why "no excluded named port" is needed: `All − {UDP http}` is canonical and covers the whole
+numeric range, yet it is not All Connections (the excluded name is a port it does not allow) -/
+example : ((ConnSet.mk' true).subtract exH).Canonical ∧
+    (ConnSet.mk' true).containedIn ((ConnSet.mk' true).subtract exH) = false ∧
+    ((ConnSet.mk' true).subtract exH).udp = some ⟨[⟨1, 65535⟩], [], ["http"]⟩ := by decide
 
 /-- a set holding a named port is not contained in a set that lacks both that name and the full
 port range -/
@@ -209,17 +222,102 @@ theorem canonical_inter (hc : c.Canonical) (hd : d.Canonical) : (c.inter d).Cano
 theorem canonical_subtract (hc : c.Canonical) (hd : d.WF) : (c.subtract d).Canonical :=
   ConnSet.canonical_subtract hc hd
 
-/-- the full set is recognised as All Connections -/
-theorem allowAll_iff_full (hc : c.Canonical) (hn : ∀ pr, c.names pr = [])
+/-- the full set is recognised as All Connections, whatever named ports it holds (the hypothesis
+"no named ports" of the earlier statement is dropped after the repair of `IsAll`) -/
+theorem allowAll_iff_full (hc : c.Canonical)
     (he : ∀ pr ps, c.get pr = some ps → ps.excluded = []) :
-    c.allowAll = true ↔ ∀ pr x, inRange x → c.den pr x := ConnSet.allowAll_iff_full hc hn he
+    c.allowAll = true ↔ ∀ pr x, inRange x → c.den pr x := ConnSet.allowAll_iff_full' hc he
 
-example : exFull = ConnSet.mk' true := by decide
-example : exA.Canonical ∧ (exA.union exB).Canonical ∧ exFull.Canonical ∧
-    ((ConnSet.mk' true).subtract exA).Canonical ∧ (exA.inter exB).Canonical := by decide
-/-- three full entries without the flag are well-formed but not canonical -/
-example : ConnSet.fullEntries.WF ∧ ¬ ConnSet.fullEntries.Canonical := by decide
-example : (ConnSet.fullEntries.union (ConnSet.mk' false)) = ConnSet.fullEntries := by decide
+/-- … and is then the value `mk' true` (so it prints "All Connections", see `toStr_mk_all`) -/
+theorem eq_all_of_full (hc : c.Canonical) (he : ∀ pr ps, c.get pr = some ps → ps.excluded = [])
+    (h : ∀ pr x, inRange x → c.den pr x) : c = ConnSet.mk' true :=
+  ConnSet.eq_mk_all_of_full hc he h
+
+theorem toStr_mk_all : (ConnSet.mk' true).toStr = "All Connections" := rfl
+
+/-! #### the repaired `IsAll` (`portset.go`): full range, no excluded name, any named ports -/
+
+theorem portSet_isAll_iff (p : PortSet) :
+    p.isAll = true ↔ p.ports = [⟨1, 65535⟩] ∧ p.excluded = [] := PortSet.isAll_iff p
+
+/-- `isAllConnectionsWithoutAllowAll`: three entries, each with the full range and no excluded
+named port -/
+theorem isAllWithoutAllowAll_iff (c : ConnSet) :
+    c.isAllWithoutAllowAll = true ↔
+      c.allowAll = false ∧
+        ∀ pr, ∃ ps, c.get pr = some ps ∧ ps.ports = [⟨1, 65535⟩] ∧ ps.excluded = [] :=
+  ConnSet.isAllWithoutAllowAll_iff c
+
+/-- the canonicalisation step of `Union` / `AddConnection`: such a set becomes `mk' true` whatever
+named ports its entries hold -/
+theorem checkIfAll_of_full_entries (ha : c.allowAll = false)
+    (h : ∀ pr, ∃ ps, c.get pr = some ps ∧ ps.ports = [⟨1, 65535⟩] ∧ ps.excluded = []) :
+    c.checkIfAll = ConnSet.mk' true := ConnSet.checkIfAll_of_full_entries ha h
+
+/-- `Union`: a result that covers the whole range on the three protocols and keeps no excluded
+named port is All Connections, whatever named ports the operands hold -/
+theorem union_eq_all_of_full (hc : c.Canonical) (hd : d.WF)
+    (he : ∀ pr ps, (c.union d).get pr = some ps → ps.excluded = [])
+    (h : ∀ pr x, inRange x → c.den pr x ∨ d.den pr x) : c.union d = ConnSet.mk' true :=
+  ConnSet.union_eq_all_of_full hc.1 hd (fun _ => hc.2) he h
+
+/-- with a non-empty argument plain well-formedness of the receiver is enough -/
+theorem union_eq_all_of_full_of_nonempty (hc : c.WF) (hd : d.WF) (hne : d.isEmpty = false)
+    (he : ∀ pr ps, (c.union d).get pr = some ps → ps.excluded = [])
+    (h : ∀ pr x, inRange x → c.den pr x ∨ d.den pr x) : c.union d = ConnSet.mk' true :=
+  ConnSet.union_eq_all_of_full hc hd (fun h' => by rw [hne] at h'; exact absurd h' (by decide)) he h
+
+/-- `AddConnection`, the same -/
+theorem addConnection_eq_all_of_full (hc : c.WF) (hp : ps.WF)
+    (ha : c.allowAll = true → ps.isEmpty = true)
+    (he : ∀ pr' qs, (c.addConnection pr ps).get pr' = some qs → qs.excluded = [])
+    (h : ∀ pr' x, inRange x → c.den pr' x ∨ (pr' = pr ∧ CSet.memL ps.ports x)) :
+    c.addConnection pr ps = ConnSet.mk' true :=
+  ConnSet.addConnection_eq_all_of_full pr hc hp ha he h
+
+/-- the defect replayed: `(All − {UDP http}) ∪ {UDP http}`. Before the repair the result was
+`⟨false, full, ⟨full, ["http"], []⟩, full⟩`, printed "SCTP 1-65535,TCP 1-65535,UDP 1-65535,http"
+and not recognised as All Connections. -/
+example : ((ConnSet.mk' true).subtract exH).union exH = ConnSet.mk' true := by decide
+example : (((ConnSet.mk' true).subtract exH).union exH).toStr = "All Connections" := by
+  have e : ((ConnSet.mk' true).subtract exH).union exH = ConnSet.mk' true := by decide
+  rw [e]; rfl
+example : (ConnSet.mk' true).containedIn (((ConnSet.mk' true).subtract exH).union exH) = true ∧
+    (((ConnSet.mk' true).subtract exH).union exH).equal (ConnSet.mk' true) = true := by decide
+/-- the same through `AddConnection` -/
+example : ((ConnSet.mk' true).subtract exH).addConnection .UDP
+    ((PortSet.mk' false).addPort (.name "http")) = ConnSet.mk' true := by decide
+/-- the entry recognised holds a named port: `IsAll` ignores it -/
+example : (⟨[⟨1, 65535⟩], ["http"], []⟩ : PortSet).isAll = true ∧
+    (⟨[⟨1, 65535⟩], [], ["http"]⟩ : PortSet).isAll = false := by decide
+/-- `checkIfAll_of_full_entries` applies to the set before canonicalisation (non-vacuity) -/
+example : (⟨false, some (PortSet.mk' true), some ⟨[⟨1, 65535⟩], ["http"], []⟩,
+    some (PortSet.mk' true)⟩ : ConnSet).checkIfAll = ConnSet.mk' true := by
+  apply checkIfAll_of_full_entries rfl
+  intro pr
+  cases pr
+  · exact ⟨_, rfl, rfl, rfl⟩
+  · exact ⟨_, rfl, rfl, rfl⟩
+  · exact ⟨_, rfl, rfl, rfl⟩
+/-- the hypotheses of `union_eq_all_of_full` hold on the replayed defect (non-vacuity) -/
+example : ((ConnSet.mk' true).subtract exH).Canonical ∧ exH.WF ∧
+    (∀ pr ps, (((ConnSet.mk' true).subtract exH).union exH).get pr = some ps → ps.excluded = []) ∧
+    ∀ pr x, inRange x → ((ConnSet.mk' true).subtract exH).den pr x ∨ exH.den pr x := by
+  have e : (ConnSet.mk' true).subtract exH =
+      ⟨false, some (PortSet.mk' true), some ⟨[⟨1, 65535⟩], [], ["http"]⟩,
+        some (PortSet.mk' true)⟩ := by decide
+  have hu : ((ConnSet.mk' true).subtract exH).union exH = ConnSet.mk' true := by decide
+  refine ⟨by decide, by decide, ?_, ?_⟩
+  · intro pr ps hg
+    rw [hu, ConnSet.get_mk'] at hg
+    cases hg
+  · intro pr x hx
+    left
+    rw [e, ConnSet.den_of_not_allowAll rfl]
+    cases pr
+    · exact ⟨_, rfl, (CSet.memL_full x).mpr hx⟩
+    · exact ⟨_, rfl, (CSet.memL_full x).mpr hx⟩
+    · exact ⟨_, rfl, (CSet.memL_full x).mpr hx⟩
 
 theorem equal_iff_eq (c d : ConnSet) : c.equal d = true ↔ c = d := ConnSet.equal_iff_eq c d
 
